@@ -4,6 +4,6 @@ VERIF = os.path.dirname(os.path.dirname(os.path.abspath(__file__)))
 tab = subprocess.run(["python3", os.path.join(VERIF, "tools", "seeded_table.py")], stdout=subprocess.PIPE, text=True).stdout
 p = os.path.join(VERIF, "DESIGN.md")
 s = open(p).read()
-s = re.sub(r"<!-- SEEDED-TABLE-BEGIN -->.*?<!-- SEEDED-TABLE-END -->", "<!-- SEEDED-TABLE-BEGIN -->\n" + tab + "<!-- SEEDED-TABLE-END -->", s, flags=re.S)
+a = s.index("<!-- SEEDED-TABLE-BEGIN -->"); b = s.index("<!-- SEEDED-TABLE-END -->"); s = s[:a] + "<!-- SEEDED-TABLE-BEGIN -->\n" + tab + s[b:]
 open(p, "w").write(s)
 print(tab.count("\n") - 2, "rows")
